@@ -17,6 +17,7 @@ model: coq/model/HostKey.v run_history / step_open / sys_history; every history 
 import asyncio
 import json
 import os
+import random
 import shutil
 import stat
 
@@ -83,9 +84,49 @@ def kh_text(M, rng, keys_pub, server, listed, fmt, port):
     return M.gen_known_hosts(rng, keys_pub, listed, "right", fmt, port)
 
 
-def rewrite(path, text):
+# how a new version of known_hosts reaches the path between two opens
+#   inplace        written over the old file, the modification time moves on (set explicitly: no dependence on the clock tick)
+#   pinned         written over the old file, then the modification time is put back (edit within the timestamp granularity,
+#                  `touch -r`, restore of a prepared file)
+#   rename         written beside it and renamed over it (atomic replace: another inode), modification time moves on
+#   rename-pinned  the same with the old modification time carried over (cp -p / rsync -t)
+EDITS = ("inplace", "pinned", "rename", "rename-pinned")
+EDIT_KINDS = ("edit-to-other", "edit-to-absent", "edit-to-right", "absent-then-added", "swap-follows-edit", "swap-edit-crossed")
+NEAR_HOST = "127.0.0.2"      # same length as HOST: a file of the same shape and size without an entry for HOST
+
+
+def kh_versions(M, rng, keys_pub, roles, fmt, port, same_shape):
+    """one known_hosts text per open.  same_shape: all versions are generated from one sub-seed, so they differ only in the
+    key (or the host name) of the target line and of the near-miss lines — with keys of one type the versions have the same
+    size, which together with a pinned modification time leaves (path, mtime, size) unchanged while the content changes."""
+    if not same_shape:
+        return [kh_text(M, rng, keys_pub, server, listed, fmt, port) for server, listed in roles]
+    seed = rng.getrandbits(48)
+    out = []
+    for server, listed in roles:
+        sub = random.Random(seed)
+        if listed is None:
+            out.append(M.gen_known_hosts(sub, keys_pub, server, "right", fmt, port, host=NEAR_HOST))
+        else:
+            out.append(M.gen_known_hosts(sub, keys_pub, listed, "right", fmt, port))
+    return out
+
+
+def rewrite(path, text, edit="inplace"):
+    old = os.stat(path) if os.path.exists(path) else None
+    if old is not None and edit in ("rename", "rename-pinned"):
+        tmp = path + ".new"
+        with open(tmp, "w", encoding="utf-8") as f:
+            f.write(text)
+        stamp = old.st_mtime_ns if edit == "rename-pinned" else old.st_mtime_ns + 2_000_000_000
+        os.utime(tmp, ns=(old.st_atime_ns, stamp))
+        os.replace(tmp, path)
+        return
     with open(path, "w", encoding="utf-8") as f:
         f.write(text)
+    if old is not None:
+        stamp = old.st_mtime_ns if edit == "pinned" else old.st_mtime_ns + 2_000_000_000
+        os.utime(path, ns=(old.st_atime_ns, stamp))
 
 
 # ------------------------------------------------------------------------------------------------
@@ -119,8 +160,11 @@ class Env:
         return got, stray
 
 
-def loop_history(env, lib, via, strict, method, acc, khfile, steps):
-    """drive ONE driver / transport object through the steps [(server key name, known_hosts text)].
+def loop_history(env, lib, via, strict, method, acc, khfile, steps, edit="inplace"):
+    """drive ONE driver / transport object through the steps [(server key name, known_hosts text)]
+    (via transport | driver; via new-object: a NEW driver object per open over the same known_hosts path —
+    what outlives an object is in the class / module / file system).  edit: how each new version of the file
+    reaches the path (EDITS).
     Returns per open: dict(fin, exc, got, stray).  After a failed open the library session and the
     socket that scrapli's close() leaves behind (it only tears down when a channel exists) are closed
     by the harness, as open_real does."""
@@ -139,7 +183,7 @@ def loop_history(env, lib, via, strict, method, acc, khfile, steps):
     out = []
 
     def begin(sk, text):
-        rewrite(khfile, text)
+        rewrite(khfile, text, edit)
         select(sk)
         env.clear()
 
@@ -154,8 +198,12 @@ def loop_history(env, lib, via, strict, method, acc, khfile, steps):
         t = d.transport
 
         async def go():
-            for sk, text in steps:
+            nonlocal d, t
+            for i, (sk, text) in enumerate(steps):
                 begin(sk, text)
+                if via == "new-object" and i:
+                    d = AsyncDriver(transport="asyncssh", **kw)
+                    t = d.transport
                 try:
                     await (d.open() if via == "driver" else t.open())
                     r = OPENED
@@ -186,8 +234,11 @@ def loop_history(env, lib, via, strict, method, acc, khfile, steps):
         from scrapli.driver import Driver
         d = Driver(transport="paramiko", **kw)
         t = d.transport
-        for sk, text in steps:
+        for i, (sk, text) in enumerate(steps):
             begin(sk, text)
+            if via == "new-object" and i:
+                d = Driver(transport="paramiko", **kw)
+                t = d.transport
             try:
                 d.open() if via == "driver" else t.open()
                 r = OPENED
@@ -228,8 +279,8 @@ def judge_loop(M, keys, strict, port, steps, results):
     return fails, bad
 
 
-def loop_case(M, keys, hist, lib, via, strict, method, acc, fmt, port, steps, results, bad):
-    return {"suite": "hostkey-history", "kind": "loopback", "history": hist, "lib": lib, "via": via, "strict_arg": strict,
+def loop_case(M, keys, hist, lib, via, strict, method, acc, fmt, port, steps, results, bad, edit="inplace"):
+    return {"suite": "hostkey-history", "kind": "loopback", "history": hist, "lib": lib, "via": via, "edit": edit, "strict_arg": strict,
             "method": method, "server_accepts": acc, "format": fmt, "port": port,
             "key_table": {n: v[1] for n, v in keys.pub.items()},
             "steps": [{"server_key": sk, "known_hosts": text, "key_missing_or_different": b, "final": M.EVN.get(r["fin"], r["fin"]),
@@ -240,13 +291,13 @@ def loop_case(M, keys, hist, lib, via, strict, method, acc, fmt, port, steps, re
 # ------------------------------------------------------------------------------------------------
 # order histories over the stub libraries
 # ------------------------------------------------------------------------------------------------
-def order_history(stubs, lib, conf, khfile, steps):
+def order_history(stubs, lib, conf, khfile, steps, edit="inplace"):
     """conf: the object's fixed part (strict, has_key, has_pw, has_user); steps: [(scenario, text)]"""
     rewrite(khfile, steps[0][1])
     t = stubs.make(lib, steps[0][0], khfile)
     traces, ckws = [], []
     for sc, text in steps:
-        rewrite(khfile, text)
+        rewrite(khfile, text, edit)
         trace, ckw = stubs.open_on(t, lib, sc)
         traces.append(trace)
         ckws.append(ckw)
@@ -288,7 +339,7 @@ def install_standin(M, workdir):
     return bindir
 
 
-def standin_history(M, workdir, strict, khopt, extra, texts):
+def standin_history(M, workdir, strict, khopt, extra, texts, edit="inplace"):
     """ONE system-transport driver object, one spawn of the stand-in ssh per open; the known_hosts file
     (when it is a path) is rewritten before each open.  Returns (args as the model takes them, argv received per open)."""
     from scrapli.driver import Driver
@@ -309,7 +360,7 @@ def standin_history(M, workdir, strict, khopt, extra, texts):
         t = d.transport
         for text in texts:
             if isinstance(khopt, str):
-                rewrite(khopt, text)
+                rewrite(khopt, text, edit)
             if os.path.exists(out):
                 os.unlink(out)
             t.open()
@@ -357,7 +408,7 @@ def judge_standin(M, strict, khopt, received, extra=None):
     return fails
 
 
-def real_ssh_history(env, strict, khfile, steps):
+def real_ssh_history(env, strict, khfile, steps, edit="inplace"):
     """the real ssh client driven by ONE GenericDriver object (system transport) through the steps"""
     from scrapli.driver import GenericDriver
     M = env.M
@@ -368,7 +419,7 @@ def real_ssh_history(env, strict, khfile, steps):
                       ssh_known_hosts_file=khfile, ssh_config_file=False, timeout_socket=30, timeout_transport=30, timeout_ops=30, **kw)
     out = []
     for sk, text in steps:
-        rewrite(khfile, text)
+        rewrite(khfile, text, edit)
         select(sk)
         env.clear()
         try:
@@ -411,11 +462,15 @@ def bracket_text(M, keys, listed, port):
 # the suite
 # ------------------------------------------------------------------------------------------------
 def plan_loopback(rng, thorough):
-    """(history kind, lib, via, strict, method, accepts, format, genuine key).  quick: the takeover / reverse-order /
+    """(history kind, lib, via, strict, method, accepts, format, genuine key, edit).  quick: the takeover / reverse-order /
     edited-file histories with password AND key, plain AND hashed per library, every other kind once per library with rotating
-    (method, format), a few with a rejecting server / non-strict / comma lists; thorough: the matrix."""
+    (method, format), a few with a rejecting server / non-strict / comma lists; the histories that change the host's entry get
+    the edit modes in which the modification time does not move (edit-to-other: pinned AND rename-pinned per library, the other
+    kinds rotating over the four modes), + per library an entry removed / replaced under a pinned time seen by a NEW object over
+    the same path; thorough: the matrix, the edit modes rotating through it, + every (edit kind, lib, mode) with new objects."""
     plan = []
     if thorough:
+        n = rng.randrange(4)
         for kind in KINDS:
             for lib in ("Paramiko", "Asyncssh"):
                 for method in ("password", "key", "both"):
@@ -424,12 +479,18 @@ def plan_loopback(rng, thorough):
                             acc = rng.random() < 0.8
                             if lib == "Paramiko" and method == "both" and not acc:
                                 acc = True
-                            plan.append((kind, lib, via, rng.choice([None, True]), method, acc, fmt, rng.choice(["A", "R"])))
-                plan.append((kind, lib, "transport", False, "password", True, "plain", "A"))
+                            n += 1
+                            plan.append((kind, lib, via, rng.choice([None, True]), method, acc, fmt, rng.choice(["A", "R"]), EDITS[n % 4]))
+                plan.append((kind, lib, "transport", False, "password", True, "plain", "A", "inplace"))
+                if kind in EDIT_KINDS:
+                    for edit in EDITS:
+                        plan.append((kind, lib, "new-object", rng.choice([None, True]), rng.choice(["password", "key"]), True,
+                                     rng.choice(["plain", "hashed", "comma"]), rng.choice(["A", "R"]), edit))
         return plan
     core = ("good-swapped", "swapped-good", "edit-to-other")
     combos = [("password", "plain"), ("key", "hashed"), ("password", "hashed"), ("key", "plain")]
     rot = rng.randrange(4)
+    erot = rng.randrange(4)
     for kind in KINDS:
         for lib in ("Paramiko", "Asyncssh"):
             if kind in core:       # the takeover / reverse / edit histories: password and key, plain and hashed, per library
@@ -439,14 +500,30 @@ def plan_loopback(rng, thorough):
             else:
                 rot += 1
                 todo = [combos[rot % 4]]
-            for method, fmt in todo:
-                plan.append((kind, lib, rng.choice(["transport", "driver"]), rng.choice([None, True]), method, True, fmt, rng.choice(["A", "R"])))
+            if kind == "edit-to-other":
+                edits = ["pinned", "rename-pinned"]
+                rng.shuffle(edits)
+            elif kind in EDIT_KINDS:
+                erot += 1
+                edits = [("pinned", "rename-pinned", "rename", "inplace")[erot % 4]]
+            else:
+                edits = [rng.choice(EDITS) for _ in todo]
+            for (method, fmt), edit in zip(todo, edits):
+                plan.append((kind, lib, rng.choice(["transport", "driver"]), rng.choice([None, True]), method, True, fmt, rng.choice(["A", "R"]), edit))
+    # the entry removed / replaced while the modification time stays, seen by a NEW object over the same path
+    for lib in ("Paramiko", "Asyncssh"):
+        ms = ["password", "key"]
+        rng.shuffle(ms)
+        plan.append(("edit-to-absent", lib, "new-object", rng.choice([None, True]), ms[0], True, rng.choice(["plain", "hashed", "comma"]),
+                     rng.choice(["A", "R"]), rng.choice(["pinned", "rename-pinned"])))
+        plan.append((rng.choice(["edit-to-other", "swap-edit-crossed"]), lib, "new-object", rng.choice([None, True]), ms[1], True,
+                     rng.choice(["plain", "hashed"]), rng.choice(["A", "R"]), rng.choice(["pinned", "rename-pinned"])))
     # beside the covering part: a few with a server that rejects, non-strict objects, comma lists, both methods
     for _ in range(4):
         lib = rng.choice(["Paramiko", "Asyncssh"])
         plan.append((rng.choice(list(KINDS)), lib, rng.choice(["transport", "driver"]), rng.choice([None, True, False]),
                      rng.choice(["password", "key"] + (["both"] if lib == "Asyncssh" else [])), rng.random() < 0.5,
-                     rng.choice(["plain", "hashed", "comma"]), rng.choice(["A", "R"])))
+                     rng.choice(["plain", "hashed", "comma"]), rng.choice(["A", "R"]), rng.choice(EDITS)))
     return plan
 
 
@@ -484,24 +561,29 @@ def run_suite(rep, M, keys, write_kh, scrapli_entry, dist, thorough, only_search
                 has_user = rng.random() < 0.9
                 fmt = rng.choice(["plain", "hashed", "comma"])
                 roles = resolve(kind, "A") if kind != "random" else random_steps(rng, "A")
+                # first pass over the kinds: the histories that edit the host's entry do it with the modification time pinned
+                if i < 3 * len(kinds):
+                    edit = "pinned" if kind in EDIT_KINDS else "inplace"
+                else:
+                    edit = rng.choice(EDITS)
                 khfile = fresh_kh()
                 steps = []
-                for server, listed in roles:
-                    server = server if server in pub3 else "B"
-                    listed = listed if listed in pub3 or listed is None else "B"
-                    text = kh_text(M, rng, pub3, server, listed, fmt, 22)
-                    rewrite(khfile, text)
+                roles = [(server if server in pub3 else "B", listed if listed in pub3 or listed is None else "B") for server, listed in roles]
+                texts = kh_versions(M, rng, pub3, roles, fmt, 22, same_shape=edit in ("pinned", "rename-pinned"))
+                for (server, listed), text in zip(roles, texts):
+                    # what scrapli's lookup says about THIS content: read from a path of its own, never from the history's path
+                    entry_of_content = scrapli_entry(write_kh(text))
                     skey = keys.pub[server][1]
                     key_bad = skey not in M.spec_entry_keys(text, M.HOST, 22)
                     calm = kind != "random" or rng.random() < 0.6
-                    sc = {"strict": strict, "entry": scrapli_entry(khfile), "skey": skey,
+                    sc = {"strict": strict, "entry": entry_of_content, "skey": skey,
                           "libv": ("Trusted" if not key_bad else rng.choice(["Untrusted", "NoCommonAlg"])) if lib == "Asyncssh" else "Trusted",
                           "handshake_ok": True if calm else rng.random() < 0.8, "has_key": has_key, "has_pw": has_pw, "has_user": has_user,
                           "key_ok": True if calm else rng.random() < 0.6, "pw_ok": True if calm else rng.random() < 0.6,
                           "kbd_ok": (rng.random() < 0.5) if lib == "Ssh2" else False}
                     steps.append((sc, text))
-                traces, ckws = order_history(stubs, lib, None, khfile, steps)
-                case = {"suite": "hostkey-history", "kind": "order", "history": kind, "lib": lib, "format": fmt,
+                traces, ckws = order_history(stubs, lib, None, khfile, steps, edit)
+                case = {"suite": "hostkey-history", "kind": "order", "history": kind, "lib": lib, "format": fmt, "edit": edit,
                         "steps": [{"scenario": sc, "known_hosts": text, "trace": [M.EVN.get(e, e) for e in tr]}
                                   for (sc, text), tr in zip(steps, traces)]}
                 cases.append(case)
@@ -510,8 +592,8 @@ def run_suite(rep, M, keys, write_kh, scrapli_entry, dist, thorough, only_search
                 for ix, why in judge_order(M, lib, khfile, steps, traces, ckws):
                     fails.append((case, why))
                 n_order += 1
-                count("order", "order_" + lib, "order_kind_" + kind, "opens_%d" % len(steps))
-                rep.case(("hist-order", lib, kind, fmt, strict, has_key, has_pw, has_user,
+                count("order", "order_" + lib, "order_kind_" + kind, "order_edit_" + edit, "opens_%d" % len(steps))
+                rep.case(("hist-order", lib, kind, fmt, edit, strict, has_key, has_pw, has_user,
                           tuple((sc["skey"] == keys.pub["A"][1], sc["entry"] == sc["skey"], sc["handshake_ok"], sc["key_ok"], sc["pw_ok"], sc["libv"]) for sc, _ in steps)),
                          nontrivial=strict)
         finally:
@@ -523,20 +605,21 @@ def run_suite(rep, M, keys, write_kh, scrapli_entry, dist, thorough, only_search
     env = Env(M, keys)
     try:
         plan = plan_loopback(rng, thorough or only_search)
-        for (kind, lib, via, strict, method, acc, fmt, genuine) in plan:
+        for (kind, lib, via, strict, method, acc, fmt, genuine, edit) in plan:
             port = env.addr[acc][0]
             roles = resolve(kind, genuine)
-            texts = [kh_text(M, rng, keys.pub, server, listed, fmt, port) for server, listed in roles]
+            texts = kh_versions(M, rng, keys.pub, roles, fmt, port, same_shape=edit in ("pinned", "rename-pinned"))
             steps = [(server, text) for (server, _), text in zip(roles, texts)]
             khfile = fresh_kh()
-            # what scrapli's lookup / asyncssh's matcher say about each version of the file (model inputs)
+            # what scrapli's lookup / asyncssh's matcher say about each version of the file (model inputs): every version is
+            # read from a path of its own, never from the history's path — the content at an open decides, not what was read before
             views = []
             for server, text in steps:
-                rewrite(khfile, text)
-                views.append((scrapli_entry(khfile), M.lib_verdict(khfile, M.HOST, port, keys.pub[server][0], keys.pub[server][1])))
-            results, drv = loop_history(env, lib, via, strict, method, acc, khfile, steps)
+                vp = write_kh(text)
+                views.append((scrapli_entry(vp), M.lib_verdict(vp, M.HOST, port, keys.pub[server][0], keys.pub[server][1])))
+            results, drv = loop_history(env, lib, via, strict, method, acc, khfile, steps, edit)
             jf, bad = judge_loop(M, keys, strict, port, steps, results)
-            case = loop_case(M, keys, kind, lib, via, strict, method, acc, fmt, port, steps, results, bad)
+            case = loop_case(M, keys, kind, lib, via, strict, method, acc, fmt, port, steps, results, bad, edit)
             cases.append(case)
             for ix, why in jf:
                 fails.append((case, why))
@@ -560,8 +643,9 @@ def run_suite(rep, M, keys, write_kh, scrapli_entry, dist, thorough, only_search
                 term_case.append(len(cases) - 1)
             n_loop += 1
             count("loopback", "loop_" + lib, "loop_kind_" + kind, "loop_via_" + via, "loop_method_" + method, "loop_fmt_" + fmt,
-                  "loop_strict_" + str(strict), "opens_%d" % len(steps), *("loop_end_%s" % M.EVN.get(r["fin"], r["fin"]) for r in results))
-            rep.case(("hist-loop", kind, lib, via, strict, method, acc, fmt, genuine, tuple(texts)), nontrivial=strict_eff)
+                  "loop_edit_" + edit, "loop_edit_%s_%s" % (edit, lib), "loop_strict_" + str(strict),
+                  *(["loop_same_size_edit"] if len({len(t) for t in texts}) == 1 and len(set(texts)) > 1 and edit in ("pinned", "rename-pinned") else []), "opens_%d" % len(steps), *("loop_end_%s" % M.EVN.get(r["fin"], r["fin"]) for r in results))
+            rep.case(("hist-loop", kind, lib, via, edit, strict, method, acc, fmt, genuine, tuple(texts)), nontrivial=strict_eff)
             if only_search and fails:
                 break
 
@@ -570,15 +654,15 @@ def run_suite(rep, M, keys, write_kh, scrapli_entry, dist, thorough, only_search
             khp = fresh_kh()
             lineA = "%s %s %s\n" % (M.HOST, keys.pub["A"][0], keys.pub["A"][1])
             lineB = "%s %s %s\n" % (M.HOST, keys.pub["B"][0], keys.pub["B"][1])
-            sysplan = [(None, khp, None, [lineA, lineB]), (True, khp, ["-o", "StrictHostKeyChecking=no"], [lineA, "", lineA]),
-                       (False, khp, None, [lineA, lineB])]
+            sysplan = [(None, khp, None, [lineA, lineB], "pinned"), (True, khp, ["-o", "StrictHostKeyChecking=no"], [lineA, "", lineA], "rename-pinned"),
+                       (False, khp, None, [lineA, lineB], "inplace")]
             if thorough:
-                sysplan += [(None, True, None, ["", ""])] + [(s, k, e, [lineA, lineB, lineA]) for s in (None, True, False) for k in (khp, True, False)
+                sysplan += [(None, True, None, ["", ""], "inplace")] + [(s, k, e, [lineA, lineB, lineA], rng.choice(EDITS)) for s in (None, True, False) for k in (khp, True, False)
                             for e in (None, ["-o", "StrictHostKeyChecking=no"], "-oUserKnownHostsFile=/dev/null")]
-            for strict, khopt, extra, texts in sysplan:
-                a, received = standin_history(M, rep.workdir, strict, khopt, extra, texts)
+            for strict, khopt, extra, texts, edit in sysplan:
+                a, received = standin_history(M, rep.workdir, strict, khopt, extra, texts, edit)
                 case = {"suite": "hostkey-history", "kind": "standin", "strict_arg": strict, "ssh_known_hosts_file": khopt if not isinstance(khopt, str) else "<file>",
-                        "open_cmd": extra, "known_hosts_versions": texts, "argv_received": received}
+                        "open_cmd": extra, "known_hosts_versions": texts, "argv_received": received, "edit": edit}
                 cases.append(case)
                 for ix, why in judge_standin(M, strict, khopt, received, extra):
                     fails.append((case, why))
@@ -587,22 +671,23 @@ def run_suite(rep, M, keys, write_kh, scrapli_entry, dist, thorough, only_search
                     terms.append("HcArgv %s %s" % (M.coq_sysargs(a), coq_list([coq_list([coq_bytes(x.encode("utf-8")) for x in g]) for g in obs])))
                     term_case.append(len(cases) - 1)
                 n_standin += 1
-                count("standin", "opens_%d" % len(texts))
-                rep.case(("hist-standin", strict, repr(khopt if not isinstance(khopt, str) else "file"), repr(extra), len(texts)), nontrivial=strict is not False)
+                count("standin", "standin_edit_" + edit, "opens_%d" % len(texts))
+                rep.case(("hist-standin", strict, repr(khopt if not isinstance(khopt, str) else "file"), repr(extra), len(texts), edit), nontrivial=strict is not False)
 
             # ---- the real ssh binary ------------------------------------------------------------
             if shutil.which("ssh"):
                 real = {"binary": shutil.which("ssh"), "histories": 0, "opens": 0, "failures": 0, "outcomes": []}
                 port = env.addr[True][0]
-                rplan = [("good-swapped", None), ("edit-to-other", None)]
+                rplan = [("good-swapped", None, "inplace"), ("edit-to-other", None, rng.choice(["pinned", "rename-pinned"]))]
                 if thorough:
-                    rplan = [(k, s) for k in KINDS for s in (None, True)] + [("good-swapped", False)]
-                for kind, strict in rplan:
+                    rplan = [(k, s, rng.choice(EDITS)) for k in KINDS for s in (None, True)] + [("good-swapped", False, "inplace")] + \
+                            [(k, None, e) for k in ("edit-to-other", "edit-to-absent") for e in ("pinned", "rename-pinned", "rename")]
+                for kind, strict, edit in rplan:
                     roles = resolve(kind, "A")
                     steps = [(server, bracket_text(M, keys, listed, port)) for server, listed in roles]
-                    results = real_ssh_history(env, strict, fresh_kh(), steps)
+                    results = real_ssh_history(env, strict, fresh_kh(), steps, edit)
                     jf, inconclusive = judge_real_ssh(M, keys, strict, port, steps, results)
-                    case = {"suite": "hostkey-history", "kind": "real-ssh", "history": kind, "strict_arg": strict, "port": port,
+                    case = {"suite": "hostkey-history", "kind": "real-ssh", "history": kind, "strict_arg": strict, "port": port, "edit": edit,
                             "key_table": {n: v[1] for n, v in keys.pub.items()},
                             "steps": [{"server_key": sk, "known_hosts": text, "final": r["fin"], "server_recorded": [e[0] for e in r["got"]]}
                                       for (sk, text), r in zip(steps, results)]}
@@ -614,10 +699,10 @@ def run_suite(rep, M, keys, write_kh, scrapli_entry, dist, thorough, only_search
                     real["failures"] += len(jf)
                     if inconclusive:
                         real["inconclusive_timeouts"] = real.get("inconclusive_timeouts", 0) + inconclusive
-                    real["outcomes"].append([kind, str(strict)] + [[sk, r["fin"], len(r["got"])] for (sk, _), r in zip(steps, results)])
+                    real["outcomes"].append([kind, str(strict), edit] + [[sk, r["fin"], len(r["got"])] for (sk, _), r in zip(steps, results)])
                     n_real += 1
-                    count("real_ssh")
-                    rep.case(("hist-realssh", kind, strict), nontrivial=strict is not False)
+                    count("real_ssh", "real_ssh_edit_" + edit)
+                    rep.case(("hist-realssh", kind, strict, edit), nontrivial=strict is not False)
     finally:
         env.close()
     return {"cases": cases, "terms": terms, "term_case": term_case, "fails": fails,
@@ -647,10 +732,10 @@ def replay(M, c, workdir):
         stubs = M.Stubs(workdir, keys.client_key_path)
         try:
             steps = [(st["scenario"], st["known_hosts"]) for st in c["steps"]]
-            traces, ckws = order_history(stubs, c["lib"], None, khfile, steps)
+            traces, ckws = order_history(stubs, c["lib"], None, khfile, steps, c.get("edit", "inplace"))
         finally:
             stubs.restore()
-        print("transport:", c["lib"], "(stub library), ONE object, %d opens" % len(steps))
+        print("transport:", c["lib"], "(stub library), ONE object, %d opens; known_hosts versions reach the path by: %s" % (len(steps), c.get("edit", "inplace")))
         for i, ((sc, text), tr) in enumerate(zip(steps, traces)):
             print("open #%d: server key %s... known_hosts entry %s  trace: %s" % (
                 i + 1, sc["skey"][-12:], "none" if sc["entry"] is None else sc["entry"][-12:] + "...", [M.EVN.get(e, e) for e in tr]))
@@ -660,11 +745,13 @@ def replay(M, c, workdir):
         try:
             port = env.addr[c["server_accepts"]][0]
             steps = [(st["server_key"], subst_keys(st["known_hosts"], c["key_table"], keys, c.get("port"), port)) for st in c["steps"]]
-            results, _ = loop_history(env, c["lib"], c["via"], c["strict_arg"], c["method"], c["server_accepts"], khfile, steps)
+            results, _ = loop_history(env, c["lib"], c["via"], c["strict_arg"], c["method"], c["server_accepts"], khfile, steps, c.get("edit", "inplace"))
         finally:
             env.close()
         fails, bad = judge_loop(M, keys, c["strict_arg"], port, steps, results)
-        print("transport:", c["lib"], " via:", c["via"], " auth_strict_key:", c["strict_arg"], " method:", c["method"], " ONE object, %d opens" % len(steps))
+        print("transport:", c["lib"], " via:", c["via"], " auth_strict_key:", c["strict_arg"], " method:", c["method"],
+              " %s, %d opens; known_hosts versions reach the path by: %s" % ("a NEW object per open over one known_hosts path" if c["via"] == "new-object" else "ONE object",
+                                                                             len(steps), c.get("edit", "inplace")))
         for i, ((sk, text), r, b) in enumerate(zip(steps, results, bad)):
             print("open #%d: server presents key %s (%s...)%s\nknown_hosts at this open:\n%s" % (
                 i + 1, sk, keys.pub[sk][1][:32], "  -- missing from / different to the entry" if b else "", text.rstrip("\n")))
@@ -672,7 +759,7 @@ def replay(M, c, workdir):
                 r["exc"] or M.EVN.get(r["fin"]), [(e[0], e[1], e[2] if e[0] == "password" else e[2][:16] + "...") for e in r["got"]]))
     elif kind == "standin":
         khopt = khfile if c["ssh_known_hosts_file"] == "<file>" else c["ssh_known_hosts_file"]
-        a, received = standin_history(M, workdir, c["strict_arg"], khopt, c["open_cmd"], c["known_hosts_versions"])
+        a, received = standin_history(M, workdir, c["strict_arg"], khopt, c["open_cmd"], c["known_hosts_versions"], c.get("edit", "inplace"))
         for i, g in enumerate(received):
             print("open #%d: argv received by the stand-in ssh: %s" % (i + 1, g))
         fails = judge_standin(M, c["strict_arg"], khopt, received, c["open_cmd"])
@@ -684,7 +771,7 @@ def replay(M, c, workdir):
         try:
             port = env.addr[True][0]
             steps = [(st["server_key"], subst_keys(st["known_hosts"], c["key_table"], keys, c.get("port"), port)) for st in c["steps"]]
-            results = real_ssh_history(env, c["strict_arg"], khfile, steps)
+            results = real_ssh_history(env, c["strict_arg"], khfile, steps, c.get("edit", "inplace"))
         finally:
             env.close()
         fails, _ = judge_real_ssh(M, keys, c["strict_arg"], port, steps, results)
